@@ -29,7 +29,7 @@ import insights.client.utilities as U            # noqa: E402
 from insights.client.constants import InsightsConstants as constants   # noqa: E402
 
 MARKERS = [".registered", ".unregistered"]
-ID_KINDS = ["canonical", "canonical", "legacy", "upper", "newline", "padded", "empty", "garbage", "nonv4", "blank"]
+ID_KINDS = ["canonical", "canonical", "legacy", "upper", "newline", "padded", "empty", "garbage", "nonv4", "blank", "unidigits"]
 ERRNOS = {"ENOSPC": errno.ENOSPC, "EIO": errno.EIO, "EACCES": errno.EACCES, "EROFS": errno.EROFS, "EDQUOT": errno.EDQUOT,
           "EPERM": errno.EPERM}
 
@@ -75,6 +75,13 @@ def id_text(kind, rng_seed):
         return ""
     if kind == "blank":
         return " \n"
+    if kind == "unidigits":
+        # canonical layout, but some of the decimal digits are another script's (int(x, 16), hence uuid.UUID, takes them)
+        r = random.Random(rng_seed + 1)
+        alt = r.choice(["\u0660\u0661\u0662\u0663\u0664\u0665\u0666\u0667\u0668\u0669", "\uff10\uff11\uff12\uff13\uff14\uff15\uff16\uff17\uff18\uff19",
+                        "\u0966\u0967\u0968\u0969\u096a\u096b\u096c\u096d\u096e\u096f"])
+        t = str(u)
+        return "".join((alt[int(ch)] if ch.isdigit() and k not in (14, 19) and r.random() < 0.6 else ch) for k, ch in enumerate(t))
     if kind == "garbage":
         return "not-a-uuid-%d" % (rng_seed % 97)
     if kind == "nonv4":
